@@ -210,7 +210,7 @@ CHECKS['C15'] = dict(
         'used once; the number of complete tuples - are validated by TLC (TraceFlow) on recorded executions of the real nodes fed by 3 external putters (sequence numbers in 4 '
         'permutations, thresholds 1 and 2 with the decrement sent from the successor body, ports of unequal length, a duplicate key offered to one key-matching port) and observed at a serial sink, under seeded random / PCT '
         'cooperative schedules.',
-   note='schedules sampled; buffer_node (unordered) and key_matching with more than two ports are not driven; item_buffer ring arithmetic is exercised through queue / sequencer / priority nodes only',
+   note='known finding: a refused duplicate put on a key_matching port replaces the buffered message (DESIGN 6.17); schedules sampled; buffer_node (unordered) and key_matching with more than two ports are not driven; item_buffer ring arithmetic is exercised through queue / sequencer / priority nodes only',
    technique='TLA+ function spec (ItemBuffer) with transition-complete replay on the real class + protocol model (Limiter) checked by TLC + TLC trace validation of recorded executions of real flow-graph nodes against FlowAbs / BufAbs',
    design='4 (C15)')
 CHECKS['C17'] = dict(
